@@ -19,86 +19,6 @@ use std::collections::HashMap;
 use std::path::PathBuf;
 use vharness::common::*;
 
-const BASE: i64 = 1_700_000_000_000;
-
-// ------------------------------------------------------------------ honest histories
-struct Hist { states: Vec<RM>, dates: Vec<i64> }
-
-fn real_room(ctx: &mut Ctx, r: &RM) -> discret::Room { ctx.room_node(r).parse().expect("honest definition parses") }
-
-fn add_u(list: &mut Vec<UN>, edges: &mut Vec<ED>, next: &mut u64, src: u64, label: u64, date: i64, author: u64, key: u64, enabled: bool) {
-    let id = *next; *next += 1;
-    list.push(UN { id, date, author, key, enabled });
-    edges.push(ED { src, label, dest: id, date, author });
-}
-fn add_r(g: &mut AN, next: &mut u64, date: i64, author: u64, ent: u64, s: bool, a: bool) {
-    let id = *next; *next += 1;
-    g.rnodes.push(RN { id, date, author, ent, s, a });
-    g.redges.push(ED { src: g.id, label: L_RIGHTS, dest: id, date, author });
-}
-fn new_group(rng: &mut Rng, room: &mut RM, next: &mut u64, gid: u64, date: i64, author: u64) {
-    let mut g = AN { id: gid, date, author, cdate: date, redges: vec![], rnodes: vec![], uedges: vec![], unodes: vec![], aedges: vec![], anodes: vec![] };
-    for _ in 0..rng.below(3) { add_r(&mut g, next, date, author, rng.below(3), rng.chance(1, 2), rng.chance(1, 3)); }
-    let mut seen = vec![];
-    for _ in 0..rng.below(3) { let k = 1 + rng.below(5); if !seen.contains(&k) { seen.push(k); add_u(&mut g.unodes, &mut g.uedges, next, gid, L_USERS, date, author, k, true); } }
-    if rng.chance(1, 2) { let k = 1 + rng.below(5); add_u(&mut g.anodes, &mut g.aedges, next, gid, L_UADMIN, date, author, k, true); }
-    room.gedges.push(ED { src: room.id, label: L_AUTHS, dest: gid, date, author });
-    room.gnodes.push(g);
-}
-
-/// an honest history of room `rid`: every step is one mutation by a key entitled at that date
-fn honest(rng: &mut Rng, ctx: &mut Ctx, rid: u64, first_id: u64, first_gid: u64, steps: usize, creator: u64, also_admin: Option<u64>) -> Hist {
-    let mut next = first_id;
-    let mut gid = first_gid;
-    let d0 = BASE + rng.range(0, 3) * 1000;
-    let mut room = RM { id: rid, cdate: d0, date: d0, author: creator, aedges: vec![], anodes: vec![], gedges: vec![], gnodes: vec![] };
-    add_u(&mut room.anodes, &mut room.aedges, &mut next, rid, L_ADMIN, d0, creator, creator, true);
-    if let Some(k) = also_admin { add_u(&mut room.anodes, &mut room.aedges, &mut next, rid, L_ADMIN, d0, creator, k, true); }
-    for _ in 0..(1 + rng.below(2)) { new_group(rng, &mut room, &mut next, gid, d0, creator); gid += 1; }
-    let mut states = vec![room.clone()];
-    let mut dates = vec![d0];
-    let mut d = d0;
-    for _ in 0..steps {
-        d += 1000 * rng.range(1, 3) + if rng.chance(1, 6) { DAY } else { 0 };
-        let cur = real_room(ctx, &room);
-        let admins: Vec<u64> = (1..=6).filter(|k| cur.is_admin(&ctx.vkey(*k), d)).collect();
-        let uadmins: Vec<(usize, u64)> = room.gnodes.iter().enumerate().flat_map(|(i, g)| {
-            let a = cur.authorisations.get(&ctx.uid(g.id)).unwrap();
-            (1..=6).filter(|k| a.can_admin_users(&ctx.vkey(*k), d)).map(|k| (i, k)).collect::<Vec<_>>() }).collect();
-        let ng = room.gnodes.len();
-        if !uadmins.is_empty() && rng.chance(1, 4) {
-            // a user admin adds / disables a user of its group (the group row is not re-signed)
-            let (gi, a) = *rng.pick(&uadmins);
-            let g = &mut room.gnodes[gi];
-            let gid0 = g.id;
-            add_u(&mut g.unodes, &mut g.uedges, &mut next, gid0, L_USERS, d, a, 1 + rng.below(6), !rng.chance(1, 3));
-        } else if !admins.is_empty() {
-            let a = *rng.pick(&admins);
-            match rng.below(10) {
-                0..=1 => { // administrators: never disable the acting key itself (refused locally)
-                    let k = 1 + rng.below(6);
-                    let en = if k == a { true } else { !rng.chance(1, 3) };
-                    add_u(&mut room.anodes, &mut room.aedges, &mut next, rid, L_ADMIN, d, a, k, en);
-                    room.date = d; room.author = a;
-                }
-                2..=4 => { let g = &mut room.gnodes[rng.below(ng as u64) as usize]; let gid0 = g.id;
-                    add_u(&mut g.unodes, &mut g.uedges, &mut next, gid0, L_USERS, d, a, 1 + rng.below(6), !rng.chance(1, 3));
-                    if rng.chance(1, 2) { g.date = d; g.author = a; } }
-                5 => { let g = &mut room.gnodes[rng.below(ng as u64) as usize]; let gid0 = g.id;
-                    add_u(&mut g.anodes, &mut g.aedges, &mut next, gid0, L_UADMIN, d, a, 1 + rng.below(6), !rng.chance(1, 4));
-                    if rng.chance(1, 2) { g.date = d; g.author = a; } }
-                6..=7 => { let g = &mut room.gnodes[rng.below(ng as u64) as usize];
-                    add_r(g, &mut next, d, a, rng.below(3), rng.chance(1, 2), rng.chance(1, 3));
-                    if rng.chance(1, 2) { g.date = d; g.author = a; } }
-                8 => { if ng < 3 { new_group(rng, &mut room, &mut next, gid, d, a); gid += 1; room.date = d; room.author = a; } }
-                _ => { let g = &mut room.gnodes[rng.below(ng as u64) as usize]; g.date = d; g.author = a; } // renamed
-            }
-        }
-        states.push(room.clone());
-        dates.push(d);
-    }
-    Hist { states, dates }
-}
 
 // ------------------------------------------------------------------ adversarial recombination
 fn pick_list<'a>(rng: &mut Rng, c: &'a mut RM) -> (u64, u64, &'a mut Vec<UN>, &'a mut Vec<ED>) {
@@ -150,7 +70,7 @@ fn mutate(rng: &mut Rng, kind: u64, c: &mut RM, old: Option<&RM>, other: &RM, ne
             let (_, _, nodes, edges) = pick_list(rng, c);
             if nodes.is_empty() { return "none"; }
             let x = rng.pick(nodes).clone();
-            let twin = UN { id: x.id, date: now, author: m, key: m, enabled: true };
+            let twin = UN { id: x.id, date: now, author: m, key: m, enabled: true, cd: 0 };
             let e = edges.iter().find(|e| e.dest == x.id).cloned();
             let own = rng.chance(1, 2); // the twin's reference: its own (signed by the attacker) or the existing one listed twice
             if let Some(e) = e { edges.push(if own { ED { src: e.src, label: e.label, dest: e.dest, date: now, author: m } } else { e }); } else { return "none"; }
@@ -182,7 +102,7 @@ fn mutate(rng: &mut Rng, kind: u64, c: &mut RM, old: Option<&RM>, other: &RM, ne
             let (_, _, nodes, _) = pick_list(rng, c);
             if nodes.is_empty() { return "none"; }
             let i = rng.below(nodes.len() as u64) as usize;
-            nodes[i] = UN { id: nodes[i].id, date: nodes[i].date, author: m, key: nodes[i].key, enabled: !nodes[i].enabled };
+            nodes[i] = UN { id: nodes[i].id, date: nodes[i].date, author: m, key: nodes[i].key, enabled: !nodes[i].enabled, cd: 0 };
             "row_replaced"
         }
         11 => { // a group of the other room attached with a self-signed reference (optionally with own entries inside)
@@ -208,8 +128,8 @@ fn mutate(rng: &mut Rng, kind: u64, c: &mut RM, old: Option<&RM>, other: &RM, ne
             let (src, label, nodes, edges) = pick_list(rng, c);
             match w {
                 0 => { if edges.is_empty() { return "none"; } edges.pop(); }
-                1 => { if nodes.is_empty() { return "none"; } let id = nodes[0].id; edges.push(ED { src: src + 1, label, dest: id, date: now, author: m }); nodes.push(UN { id: *next, date: now, author: m, key: m, enabled: true }); *next += 1; }
-                _ => { edges.push(ED { src, label, dest: 9999, date: now, author: m }); nodes.push(UN { id: *next, date: now, author: m, key: m, enabled: true }); *next += 1; }
+                1 => { if nodes.is_empty() { return "none"; } let id = nodes[0].id; edges.push(ED { src: src + 1, label, dest: id, date: now, author: m }); nodes.push(UN { id: *next, date: now, author: m, key: m, enabled: true, cd: 0 }); *next += 1; }
+                _ => { edges.push(ED { src, label, dest: 9999, date: now, author: m }); nodes.push(UN { id: *next, date: now, author: m, key: m, enabled: true, cd: 0 }); *next += 1; }
             }
             "shape_error"
         }
@@ -224,7 +144,7 @@ fn mutate(rng: &mut Rng, kind: u64, c: &mut RM, old: Option<&RM>, other: &RM, ne
             if edges.is_empty() { return "none"; }
             let e = rng.pick(edges).clone();
             edges.push(e);
-            nodes.push(UN { id: *next, date: now, author: m, key: m, enabled: true }); *next += 1;
+            nodes.push(UN { id: *next, date: now, author: m, key: m, enabled: true, cd: 0 }); *next += 1;
             "row_without_reference"
         }
         16 => { // an admin-signed entry of the attacker's own key, reference signed by the admin but under another field
@@ -235,6 +155,73 @@ fn mutate(rng: &mut Rng, kind: u64, c: &mut RM, old: Option<&RM>, other: &RM, ne
             let e = g.uedges.iter().find(|e| e.dest == u.id).cloned();
             if let Some(e) = e { g.aedges.push(e); g.anodes.push(u); }
             "user_entry_into_uadmin_list_old_ref"
+        }
+        17 | 18 => { // a key whose entitlement ended signs an entry whose creation date lies inside its past validity
+                     // while the entry takes effect (mdate) now; 18: the same for a former user admin adding a user
+            if kind == 17 {
+                let mut windows: Vec<(u64, i64)> = vec![];
+                for dis in c.anodes.iter().filter(|u| !u.enabled) {
+                    if let Some(en) = c.anodes.iter().filter(|u| u.key == dis.key && u.enabled && u.date < dis.date).max_by_key(|u| u.date) {
+                        if !c.anodes.iter().any(|u| u.key == dis.key && u.enabled && u.date > dis.date) { windows.push((dis.key, en.date)); }
+                    }
+                }
+                if windows.is_empty() { return "none"; }
+                let (f, d_en) = *rng.pick(&windows);
+                let cd = d_en + 1 - now;
+                match rng.below(3) {
+                    0 => { let id = *next; *next += 1; c.anodes.push(UN { id, date: now, author: f, key: m, enabled: true, cd }); c.aedges.push(ED { src: rid, label: L_ADMIN, dest: id, date: now, author: f }); }
+                    1 => { if c.gnodes.is_empty() { return "none"; } let i = rng.below(c.gnodes.len() as u64) as usize; let g = &mut c.gnodes[i];
+                           let id = *next; *next += 1; g.unodes.push(UN { id, date: now, author: f, key: m, enabled: true, cd }); g.uedges.push(ED { src: g.id, label: L_USERS, dest: id, date: now, author: f }); }
+                    _ => { if c.gnodes.is_empty() { return "none"; } let i = rng.below(c.gnodes.len() as u64) as usize; let g = &mut c.gnodes[i];
+                           let id = *next; *next += 1; g.rnodes.push(RN { id, date: now, author: f, ent: rng.below(3), s: true, a: true, cd }); g.redges.push(ED { src: g.id, label: L_RIGHTS, dest: id, date: now, author: f }); }
+                }
+                "former_admin_creation_date_in_past_validity"
+            } else {
+                for g in c.gnodes.iter_mut() {
+                    let mut w = None;
+                    for dis in g.anodes.iter().filter(|u| !u.enabled) {
+                        if let Some(en) = g.anodes.iter().filter(|u| u.key == dis.key && u.enabled && u.date < dis.date).max_by_key(|u| u.date) {
+                            if !g.anodes.iter().any(|u| u.key == dis.key && u.enabled && u.date > dis.date) { w = Some((dis.key, en.date)); }
+                        }
+                    }
+                    if let Some((f, d_en)) = w {
+                        let id = *next; *next += 1;
+                        g.unodes.push(UN { id, date: now, author: f, key: m, enabled: true, cd: d_en + 1 - now });
+                        g.uedges.push(ED { src: g.id, label: L_USERS, dest: id, date: now, author: f });
+                        return "former_user_admin_creation_date_in_past_validity";
+                    }
+                }
+                "none"
+            }
+        }
+        19 => { // the converse: an entitled key signs an entry whose creation date lies before its own validity
+            let ads: Vec<UN> = c.anodes.iter().filter(|u| u.enabled && !c.anodes.iter().any(|v| v.key == u.key && v.date > u.date)).cloned().collect();
+            if ads.is_empty() || c.gnodes.is_empty() { return "none"; }
+            let a = rng.pick(&ads).clone();
+            let i = rng.below(c.gnodes.len() as u64) as usize; let g = &mut c.gnodes[i];
+            let id = *next; *next += 1;
+            g.unodes.push(UN { id, date: now, author: a.key, key: m, enabled: true, cd: a.date - 7777 - now });
+            g.uedges.push(ED { src: g.id, label: L_USERS, dest: id, date: now, author: a.key });
+            "admin_creation_date_before_own_validity"
+        }
+        20 => { // a self-signed row that carries the id of a row stored in ANOTHER list (or of a group / the room row)
+            let mut ids: Vec<u64> = c.anodes.iter().map(|u| u.id).collect();
+            for g in &c.gnodes { ids.push(g.id); ids.extend(g.unodes.iter().map(|u| u.id)); ids.extend(g.anodes.iter().map(|u| u.id)); ids.extend(g.rnodes.iter().map(|u| u.id)); }
+            ids.push(c.id);
+            let id = *rng.pick(&ids);
+            let as_right = rng.chance(1, 4) && !c.gnodes.is_empty();
+            if as_right {
+                let i = rng.below(c.gnodes.len() as u64) as usize; let g = &mut c.gnodes[i];
+                if g.rnodes.iter().any(|x| x.id == id) { return "none"; }
+                g.rnodes.push(RN { id, date: now, author: m, ent: 0, s: true, a: true, cd: 0 });
+                g.redges.push(ED { src: g.id, label: L_RIGHTS, dest: id, date: now, author: m });
+            } else {
+                let (src, label, nodes, edges) = pick_list(rng, c);
+                if nodes.iter().any(|x| x.id == id) { return "none"; }
+                nodes.push(UN { id, date: now, author: m, key: m, enabled: true, cd: 0 });
+                edges.push(ED { src, label, dest: id, date: now, author: m });
+            }
+            "row_with_id_of_another_list"
         }
         _ => "none",
     }
@@ -278,9 +265,9 @@ fn case_random(rng: &mut Rng, ctx: &mut Ctx, stats: &mut HashMap<String, u64>) -
     let m = 3 + rng.below(3);
     let steps = rng.below(7) as usize;
     let also = if rng.chance(1, 3) { Some(3 - creator) } else { None };
-    let h = honest(rng, ctx, 1, 100, 10, steps, creator, also);
+    let h = honest(rng, ctx, 1, 100, 10, steps, creator, also, true);
     // the other room: same creator, the attacker is an administrator there
-    let h2 = honest(rng, ctx, 2, 500, 20, 2, creator, Some(m));
+    let h2 = honest(rng, ctx, 2, 500, 20, 2, creator, Some(m), true);
     let other = h2.states.last().unwrap().clone();
     let n = h.states.len();
     let fresh = rng.chance(1, 5);
@@ -293,7 +280,7 @@ fn case_random(rng: &mut Rng, ctx: &mut Ctx, stats: &mut HashMap<String, u64>) -
     let mut tags = vec![];
     if rng.chance(3, 5) {
         for _ in 0..(1 + rng.below(2)) {
-            let kind = rng.below(17);
+            let kind = rng.below(21);
             let t = mutate(rng, kind, &mut cand, old.as_ref(), &other, &mut next, m, now);
             if t != "none" { tags.push(t); }
         }
@@ -335,7 +322,7 @@ fn directed(ctx: &mut Ctx, out: &mut Out) {
     later_g.gnodes.push(AN { id: 11, date: d1, author: a, cdate: d1, redges: vec![], rnodes: vec![], uedges: vec![], unodes: vec![], aedges: vec![], anodes: vec![] });
     later_g.gedges.push(ED { src: 1, label: L_AUTHS, dest: 11, date: d1, author: a });
     later_g.date = d1;
-    let probes: Vec<(u64, u64, i64)> = vec![(a, 1, now), (m, 1, now), (m, 1, d0 + 1), (4, 1, now), (5, 0, now)];
+    let probes: Vec<(u64, u64, i64)> = vec![(a, 1, now), (m, 1, now), (m, 1, d0 + 1), (4, 1, now), (5, 0, now), (6, 1, now + 1)];
     let m_user = base.gnodes[0].unodes[0].clone();
     let mut list: Vec<(&str, Option<RM>, RM)> = vec![];
     // K1: the admin-signed entry "M is a user" re-placed into the administrator list, reference signed by M
@@ -348,7 +335,7 @@ fn directed(ctx: &mut Ctx, out: &mut Out) {
     list.push(("K1_user_entry_into_uadmin_list_old_reference", Some(base.clone()), c));
     // K1: a self-signed row rides on a reference listed twice... refused (author not entitled): control
     let mut c = base.read_order();
-    { let e = c.aedges[0].clone(); c.aedges.push(e); c.anodes.push(UN { id: 900, date: now, author: m, key: m, enabled: true }); }
+    { let e = c.aedges[0].clone(); c.aedges.push(e); c.anodes.push(UN { id: 900, date: now, author: m, key: m, enabled: true, cd: 0 }); }
     list.push(("self_signed_row_without_reference_refused", Some(base.clone()), c));
     // K2: a room never seen before, with a self-signed administrator entry of the relaying member
     let mut c = base.read_order();
@@ -362,7 +349,7 @@ fn directed(ctx: &mut Ctx, out: &mut Out) {
     list.push(("K3_own_uadmin_entry_in_new_group", Some(base.clone()), c));
     // K4: a second row with the id of the administrator's entry, riding on an honest update
     let mut c = later.read_order();
-    { let x = c.anodes[0].clone(); c.anodes.push(UN { id: x.id, date: now, author: m, key: m, enabled: true });
+    { let x = c.anodes[0].clone(); c.anodes.push(UN { id: x.id, date: now, author: m, key: m, enabled: true, cd: 0 });
       c.aedges.push(ED { src: 1, label: L_ADMIN, dest: x.id, date: now, author: m }); }
     list.push(("K4_twin_id_of_admin_entry", Some(base.clone()), c));
     // controls
@@ -371,6 +358,61 @@ fn directed(ctx: &mut Ctx, out: &mut Out) {
     let mut c = base.read_order();
     add_u(&mut c.anodes, &mut c.aedges, &mut next, 1, L_ADMIN, now, m, m, true);
     list.push(("self_signed_admin_refused", Some(base.clone()), c));
+    // ---- creation date vs modification date: the author must be entitled at the date the entry takes effect (mdate)
+    // key 2 was administrator from d0 to d0+5000, key 4 user admin of group 10 over the same period
+    let mut base2 = base.clone();
+    add_u(&mut base2.anodes, &mut base2.aedges, &mut next, 1, L_ADMIN, d0, a, 2, true);
+    { let g = &mut base2.gnodes[0]; add_u(&mut g.anodes, &mut g.aedges, &mut next, 10, L_UADMIN, d0, a, 4, true); }
+    add_u(&mut base2.anodes, &mut base2.aedges, &mut next, 1, L_ADMIN, d0 + 5000, a, 2, false);
+    { let g = &mut base2.gnodes[0]; add_u(&mut g.anodes, &mut g.aedges, &mut next, 10, L_UADMIN, d0 + 5000, a, 4, false); }
+    base2.date = d0 + 5000;
+    let mut c = base2.read_order();
+    c.anodes.push(UN { id: 910, date: now, author: 2, key: m, enabled: true, cd: d0 + 1000 - now });
+    c.aedges.push(ED { src: 1, label: L_ADMIN, dest: 910, date: now, author: 2 });
+    list.push(("former_admin_signs_admin_entry_created_in_its_validity_refused", Some(base2.clone()), c));
+    let mut c = base2.read_order();
+    { let g = &mut c.gnodes[0]; g.rnodes.push(RN { id: 911, date: now, author: 2, ent: 1, s: true, a: true, cd: d0 + 1000 - now });
+      g.redges.push(ED { src: 10, label: L_RIGHTS, dest: 911, date: now, author: 2 }); }
+    list.push(("former_admin_signs_right_created_in_its_validity_refused", Some(base2.clone()), c));
+    let mut c = base2.read_order();
+    { let g = &mut c.gnodes[0]; g.unodes.push(UN { id: 912, date: now, author: 4, key: 5, enabled: true, cd: d0 + 1000 - now });
+      g.uedges.push(ED { src: 10, label: L_USERS, dest: 912, date: now, author: 4 }); }
+    list.push(("former_user_admin_signs_user_created_in_its_validity_refused", Some(base2.clone()), c));
+    let mut c = base2.read_order();
+    add_u(&mut c.anodes, &mut c.aedges, &mut next, 1, L_ADMIN, now, 2, m, true);
+    c.anodes.last_mut().unwrap().cd = d0 + 1000 - now;
+    list.push(("former_admin_in_unseen_room_created_in_its_validity_refused", None, c));
+    let mut c = base2.read_order();
+    { let g = &mut c.gnodes[0]; g.unodes.push(UN { id: 913, date: now, author: a, key: 5, enabled: true, cd: d0 - 9000 - now });
+      g.uedges.push(ED { src: 10, label: L_USERS, dest: 913, date: now, author: a }); }
+    list.push(("admin_signs_user_created_before_its_validity_accepted", Some(base2.clone()), c));
+    // ---- a row carrying the id of a row stored in another list, riding on an honest update
+    let mut c = later.read_order();
+    c.anodes.push(UN { id: m_user.id, date: now, author: m, key: m, enabled: true, cd: 0 });
+    c.aedges.push(ED { src: 1, label: L_ADMIN, dest: m_user.id, date: now, author: m });
+    list.push(("admin_row_with_id_of_stored_user_row_refused", Some(base.clone()), c));
+    let mut c = later.read_order();
+    { let aid = c.anodes[0].id; let g = &mut c.gnodes[0];
+      g.anodes.push(UN { id: aid, date: now, author: m, key: m, enabled: true, cd: 0 });
+      g.aedges.push(ED { src: 10, label: L_UADMIN, dest: aid, date: now, author: m }); }
+    list.push(("uadmin_row_with_id_of_stored_admin_row_refused", Some(base.clone()), c));
+    let mut c = later.read_order();
+    { let g = &mut c.gnodes[0];
+      g.rnodes.push(RN { id: 10, date: now, author: m, ent: 0, s: true, a: true, cd: 0 });
+      g.redges.push(ED { src: 10, label: L_RIGHTS, dest: 10, date: now, author: m }); }
+    list.push(("right_row_with_id_of_its_group_row_refused", Some(base.clone()), c));
+    // an outsider signs a user-admin entry for itself that carries the id of the group's right row / of the group row
+    for (name, id) in [("outsider_uadmin_row_with_id_of_the_groups_right_row_refused", base.gnodes[0].rnodes[0].id), ("outsider_uadmin_row_with_id_of_the_group_row_refused", 10u64)] {
+        let mut c = later.read_order();
+        { let g = &mut c.gnodes[0];
+          g.anodes.push(UN { id, date: now, author: 6, key: 6, enabled: true, cd: 0 });
+          g.aedges.push(ED { src: 10, label: L_UADMIN, dest: id, date: now, author: 6 }); }
+        list.push((name, Some(base.clone()), c));
+    }
+    let mut c = later.read_order();
+    c.anodes.push(UN { id: 10, date: now, author: 6, key: 6, enabled: true, cd: 0 });
+    c.aedges.push(ED { src: 1, label: L_ADMIN, dest: 10, date: now, author: 6 });
+    list.push(("outsider_admin_row_with_id_of_a_group_row_refused", Some(base.clone()), c));
     for (name, old, cand) in list {
         let (obs, sig_ok) = run_prepare(ctx, old.as_ref(), &cand, &probes, true);
         assert!(sig_ok);
@@ -406,7 +448,9 @@ async fn e2e(ctx: &mut Ctx, out: &mut Out) {
     let mut v = start_inst(ctx, "e2e_v").await;
     let m = 3u64;
     let kinds = ["honest_unseen_room", "K2_self_signed_admin_in_unseen_room", "honest_update", "K1_user_entry_into_admin_list",
-                 "K1_user_entry_into_uadmin_list_old_reference", "K3_own_uadmin_entry_in_new_group", "K4_twin_id_of_admin_entry", "self_signed_admin_refused"];
+                 "K1_user_entry_into_uadmin_list_old_reference", "K3_own_uadmin_entry_in_new_group", "K4_twin_id_of_admin_entry", "self_signed_admin_refused",
+                 "former_admin_signs_admin_entry_created_in_its_validity_refused",
+                 "outsider_uadmin_row_with_id_of_the_groups_right_row_refused"];
     let mut t = BASE + 1000;
     for kind in kinds {
         t += 100_000;
@@ -432,7 +476,7 @@ async fn e2e(ctx: &mut Ctx, out: &mut Out) {
         let mut cand = n0.clone();
         match kind {
             "K2_self_signed_admin_in_unseen_room" | "self_signed_admin_refused" => {
-                let u = UN { id: 800, date: now, author: m, key: m, enabled: true };
+                let u = UN { id: 800, date: now, author: m, key: m, enabled: true, cd: 0 };
                 cand.admin_nodes.push(ctx.user_node(&u));
                 cand.admin_edges.push(ctx.edge(&ED { src: rix, label: L_ADMIN, dest: 800, date: now, author: m }, "0.0"));
             }
@@ -447,18 +491,48 @@ async fn e2e(ctx: &mut Ctx, out: &mut Out) {
                 let (u, e) = (g.user_nodes[0].clone(), g.user_edges[0].clone());
                 g.user_admin_nodes.push(u); g.user_admin_edges.push(e);
             }
-            "honest_update" | "K4_twin_id_of_admin_entry" => {
+            "honest_update" | "K4_twin_id_of_admin_entry" | "outsider_uadmin_row_with_id_of_the_groups_right_row_refused" => {
                 verif_clock::set(d1);
                 let mut p = Parameters::default();
                 p.add("room", base64_encode(&rid)).unwrap(); p.add("g", base64_encode(&gid)).unwrap();
                 p.add("k", base64_encode(&ctx.vkey(4))).unwrap();
                 a.db.mutate_raw(r#"mutate { sys.Room{ id:$room authorisations:[{ id:$g users:[{verif_key:$k}] }] } }"#, Some(p)).await.unwrap();
                 cand = strip(a.db.get_room_node(rid).await.unwrap().unwrap());
+                if kind == "outsider_uadmin_row_with_id_of_the_groups_right_row_refused" {
+                    // relayed together with the honest new user entry the victim has not seen yet
+                    let g = &mut cand.auth_nodes[0];
+                    let xix = ctx.uid_ix(&g.right_nodes[0].node.id);
+                    let gix2 = ctx.uid_ix(&g.node.id);
+                    g.user_admin_nodes.push(ctx.user_node(&UN { id: xix, date: now, author: 6, key: 6, enabled: true, cd: 0 }));
+                    g.user_admin_edges.push(ctx.edge(&ED { src: gix2, label: L_UADMIN, dest: xix, date: now, author: 6 }, "0.1"));
+                }
                 if kind == "K4_twin_id_of_admin_entry" {
                     let xix = ctx.uid_ix(&cand.admin_nodes[0].node.id);
-                    cand.admin_nodes.push(ctx.user_node(&UN { id: xix, date: now, author: m, key: m, enabled: true }));
+                    cand.admin_nodes.push(ctx.user_node(&UN { id: xix, date: now, author: m, key: m, enabled: true, cd: 0 }));
                     cand.admin_edges.push(ctx.edge(&ED { src: rix, label: L_ADMIN, dest: xix, date: now, author: m }, "0.0"));
                 }
+            }
+            "former_admin_signs_admin_entry_created_in_its_validity_refused" => {
+                // A makes key 2 administrator, later disables it; key 2 then signs "M is administrator" with a creation
+                // date inside its past validity and a modification date (the date the entry takes effect) now
+                verif_clock::set(d0 + 2000);
+                let mut p = Parameters::default();
+                p.add("room", base64_encode(&rid)).unwrap(); p.add("k", base64_encode(&ctx.vkey(2))).unwrap();
+                a.db.mutate_raw(r#"mutate { sys.Room{ id:$room admin:[{verif_key:$k}] } }"#, Some(p)).await.unwrap();
+                let n1 = strip(a.db.get_room_node(rid).await.unwrap().unwrap());
+                v.db.add_room_node(n1).await.expect("the victim imports the honest update");
+                verif_clock::set(d1);
+                let mut p = Parameters::default();
+                p.add("room", base64_encode(&rid)).unwrap(); p.add("k", base64_encode(&ctx.vkey(2))).unwrap();
+                a.db.mutate_raw(r#"mutate { sys.Room{ id:$room admin:[{verif_key:$k enabled:false}] } }"#, Some(p)).await.unwrap();
+                cand = strip(a.db.get_room_node(rid).await.unwrap().unwrap());
+                v.db.add_room_node(cand.clone()).await.expect("the victim imports the honest update");
+                for _ in 0..40 { if last_room(&mut v.rx, &rid).is_some() { break; } tokio::time::sleep(std::time::Duration::from_millis(10)).await; }
+                tokio::time::sleep(std::time::Duration::from_millis(30)).await;
+                let _ = last_room(&mut v.rx, &rid);
+                old = Some(asc(ctx, &strip(v.db.get_room_node(rid).await.unwrap().unwrap())));
+                cand.admin_nodes.push(ctx.user_node(&UN { id: 803, date: now, author: 2, key: m, enabled: true, cd: d0 + 3000 - now }));
+                cand.admin_edges.push(ctx.edge(&ED { src: rix, label: L_ADMIN, dest: 803, date: now, author: 2 }, "0.0"));
             }
             "K3_own_uadmin_entry_in_new_group" => {
                 verif_clock::set(d1);
@@ -469,16 +543,16 @@ async fn e2e(ctx: &mut Ctx, out: &mut Out) {
                 let g2ix = ctx.uid_ix(&g2);
                 cand = strip(a.db.get_room_node(rid).await.unwrap().unwrap());
                 let g = cand.auth_nodes.iter_mut().find(|g| g.node.id == g2).unwrap();
-                g.user_admin_nodes.push(ctx.user_node(&UN { id: 801, date: now, author: m, key: m, enabled: true }));
+                g.user_admin_nodes.push(ctx.user_node(&UN { id: 801, date: now, author: m, key: m, enabled: true, cd: 0 }));
                 g.user_admin_edges.push(ctx.edge(&ED { src: g2ix, label: L_UADMIN, dest: 801, date: now, author: m }, "0.1"));
-                g.user_nodes.push(ctx.user_node(&UN { id: 802, date: now, author: m, key: 5, enabled: true }));
+                g.user_nodes.push(ctx.user_node(&UN { id: 802, date: now, author: m, key: 5, enabled: true, cd: 0 }));
                 g.user_edges.push(ctx.edge(&ED { src: g2ix, label: L_USERS, dest: 802, date: now, author: m }, "0.1"));
             }
             _ => {}
         }
         let _ = gix;
         assert!(SignatureVerificationService::room_check(cand.clone()).is_ok(), "e2e candidate does not pass room_check");
-        let probes: Vec<(u64, u64, i64)> = vec![(a.key, 1, now), (m, 1, now), (m, 1, d0 + 1), (m, 2, now + 5), (4, 1, now), (5, 1, now + 1), (5, 0, now)];
+        let probes: Vec<(u64, u64, i64)> = vec![(a.key, 1, now), (m, 1, now), (m, 1, d0 + 1), (m, 2, now + 5), (4, 1, now), (5, 1, now + 1), (5, 0, now), (6, 1, now + 2)];
         let cand_abs = ctx.rm_of(&cand);
         verif_clock::set(now + 1000);
         let obs = match v.db.add_room_node(cand).await {
